@@ -1,6 +1,9 @@
 import SE.Proofs.NameRune
 /-
-Helper lemmas for C11 (capture references expand as documented).
+Helper lemmas for C11 (capture references expand as documented), regex side: `regexp.Expand`
+(`rxExpand`) against the specification `expandSpec`. Both scan the template with the same rune-aware
+`extract` (`rxExtractU`); they differ only in what a reference stands for — `rxExpand` knows group 0 and
+named groups, the specification does not.
 -/
 namespace SE
 
@@ -18,6 +21,9 @@ def refGood (m : RxMatch) (name : Bytes) : Prop :=
     participate counts as empty -/
 def capsOf (m : RxMatch) : List Bytes := (m.drop 1).map (·.2.getD [])
 
+theorem capsOf_length (m : RxMatch) : (capsOf m).length = m.length - 1 := by
+  simp [capsOf]
+
 theorem capsOf_getD (m : RxMatch) (n : Nat) (hn : n ≠ 0) :
     (capsOf m).getD (n - 1) [] = (match m[n]? with | some (_, some t) => t | _ => []) := by
   unfold capsOf
@@ -30,19 +36,17 @@ theorem capsOf_getD (m : RxMatch) (n : Nat) (hn : n ≠ 0) :
     obtain ⟨nm, t⟩ := g
     cases t <;> simp
 
-/-- `regexp.Expand` (with Go's rune-wise name scan) is the specification (ASCII names) on templates in
-    which no reference name and no lone `$` is directly followed by a byte ≥ 0x80 (`refsAsciiFollowed`);
-    without that hypothesis the statement is false: `$1é`, see
-    `SE.Props.C11.unicode_letter_after_ref_counterexample`. -/
+/-- `regexp.Expand` is the specification on every template whose reference names are good for `m`
+    (equality of `Option`s: both sides are `none` exactly when the scan meets a name with a rune outside
+    the modelled fragment). -/
 theorem rxExpand_eq_expandSpec (m : RxMatch) :
     ∀ (fuel : Nat) (t : Bytes), (∀ name ∈ refNames fuel t, refGood m name) →
-      refsAsciiFollowed fuel t = true →
-      rxExpand m fuel t = some (expandSpec (capsOf m) fuel t) := by
+      rxExpand m fuel t = expandSpec (capsOf m) fuel t := by
   intro fuel
   induction fuel with
-  | zero => intro t _ _; cases t <;> rfl
+  | zero => intro t _; cases t <;> rfl
   | succ fuel ih =>
-    intro t h ha
+    intro t h
     cases t with
     | nil => rfl
     | cons b rest =>
@@ -53,106 +57,44 @@ theorem rxExpand_eq_expandSpec (m : RxMatch) :
           by_cases hc : (c == cDollar) = true
           · have h' : ∀ name ∈ refNames fuel rest', refGood m name := by
               intro name hn; apply h; simp [refNames, hb, hc, hn]
-            have ha' : refsAsciiFollowed fuel rest' = true := by
-              simpa [refsAsciiFollowed, hb, hc] using ha
-            simp [rxExpand, expandSpec, hb, hc, ih rest' h' ha']
+            simp [rxExpand, expandSpec, hb, hc, ih rest' h']
           · have hc' : (c == cDollar) = false := by simpa using hc
-            simp only [refsAsciiFollowed, hb, hc', if_true, Bool.false_eq_true, if_false,
-              Bool.and_eq_true] at ha
-            have hxu := rxExtractU_eq_rxExtract (c :: rest') ha.1
-            cases hx : rxExtract (c :: rest') with
-            | none =>
-              have h' : ∀ name ∈ refNames fuel (c :: rest'), refGood m name := by
-                intro name hn; apply h; simp [refNames, hb, hc, hx, hn]
-              have ha' : refsAsciiFollowed fuel (c :: rest') = true := by
-                have := ha.2; rw [hx] at this; exact this
-              rw [hx] at hxu
-              simp [rxExpand, expandSpec, hb, hc, hx, hxu, ih _ h' ha']
-            | some nr =>
-              obtain ⟨name, r⟩ := nr
-              have h' : ∀ nm ∈ refNames fuel r, refGood m nm := by
-                intro nm hn; apply h; simp [refNames, hb, hc, hx, hn]
-              have ha' : refsAsciiFollowed fuel r = true := by
-                have := ha.2; rw [hx] at this; exact this
-              have hg : refGood m name := by apply h; simp [refNames, hb, hc, hx]
-              rw [hx] at hxu
-              simp only [rxExpand, expandSpec, hb, hc, hx, hxu, if_true, if_false, Bool.false_eq_true,
-                ih r h' ha', Option.map_some]
-              congr 2
-              unfold refGood at hg
-              cases hn : rxNum name with
-              | some n =>
-                rw [hn] at hg
-                simp only at hg
-                have : n ≥ 1 := by omega
-                simp only [this, if_true]
-                rw [capsOf_getD m n hg]
-                cases m[n]? with
-                | none => rfl
-                | some g => obtain ⟨nm, t⟩ := g; cases t <;> rfl
+            cases hx : rxExtractU (c :: rest') with
+            | none => simp [rxExpand, expandSpec, hb, hc, hx]
+            | some o =>
+              cases o with
               | none =>
-                rw [hn] at hg
-                simp only at hg
-                simp [hg]
+                have h' : ∀ name ∈ refNames fuel (c :: rest'), refGood m name := by
+                  intro name hn; apply h; simp [refNames, hb, hc, hx, hn]
+                simp [rxExpand, expandSpec, hb, hc, hx, ih _ h']
+              | some nr =>
+                obtain ⟨name, r⟩ := nr
+                have h' : ∀ nm ∈ refNames fuel r, refGood m nm := by
+                  intro nm hn; apply h; simp [refNames, hb, hc, hx, hn]
+                have hg : refGood m name := by apply h; simp [refNames, hb, hc, hx]
+                simp only [rxExpand, expandSpec, hb, hc, hx, if_true, if_false, Bool.false_eq_true, ih r h']
+                congr 2
+                unfold refGood at hg
+                cases hn : rxNum name with
+                | some n =>
+                  rw [hn] at hg
+                  simp only at hg
+                  have : n ≥ 1 := by omega
+                  simp only [this, if_true]
+                  rw [capsOf_getD m n hg]
+                  cases m[n]? with
+                  | none => rfl
+                  | some g => obtain ⟨nm, t⟩ := g; cases t <;> rfl
+                | none =>
+                  rw [hn] at hg
+                  simp only at hg
+                  simp [hg]
       · have hb' : (b == cDollar) = false := by simpa using hb
         have h' : ∀ name ∈ refNames fuel rest, refGood m name := by
           intro name hn; apply h; simp [refNames, hb', hn]
-        have ha' : refsAsciiFollowed fuel rest = true := by
-          simpa [refsAsciiFollowed, hb'] using ha
-        simp [rxExpand, expandSpec, hb', ih rest h' ha']
+        simp [rxExpand, expandSpec, hb', ih rest h']
 
-/-- a template without `$` is copied by `regexp.Expand` (whatever other bytes it contains) -/
-theorem rxExpand_no_dollar (m : RxMatch) : ∀ (fuel : Nat) (t : Bytes), cDollar ∉ t → rxExpand m fuel t = some t := by
-  intro fuel
-  induction fuel with
-  | zero => intro t _; cases t <;> rfl
-  | succ fuel ih =>
-    intro t h
-    cases t with
-    | nil => rfl
-    | cons b rest =>
-      simp only [List.mem_cons, not_or] at h
-      have hb : (b == cDollar) = false := by
-        cases hbb : (b == cDollar) with
-        | false => rfl
-        | true => exfalso; apply h.1; simp at hbb; exact hbb.symm
-      simp [rxExpand, hb, ih rest h.2]
-
-/-- a template without `$` trivially satisfies the regex-side guard -/
-theorem refsAsciiFollowed_no_dollar : ∀ (fuel : Nat) (t : Bytes), cDollar ∉ t → refsAsciiFollowed fuel t = true := by
-  intro fuel
-  induction fuel with
-  | zero => intro t _; cases t <;> rfl
-  | succ fuel ih =>
-    intro t h
-    cases t with
-    | nil => rfl
-    | cons b rest =>
-      simp only [List.mem_cons, not_or] at h
-      have hb : (b == cDollar) = false := by
-        cases hbb : (b == cDollar) with
-        | false => rfl
-        | true => exfalso; apply h.1; simp at hbb; exact hbb.symm
-      simp [refsAsciiFollowed, hb, ih rest h.2]
-
-/-- the names `rxExtract` returns are non-empty -/
-theorem rxExtract_name_ne_nil (s name r : Bytes) (h : rxExtract s = some (name, r)) : name ≠ [] := by
-  unfold rxExtract at h
-  intro hn
-  split at h
-  rename_i brace s1 _
-  simp only at h
-  split at h
-  · cases h
-  · rename_i hne
-    split at h
-    · split at h
-      · split at h
-        · simp at h; rw [h.1] at hne; simp [hn] at hne
-        · cases h
-      · cases h
-    · simp at h; rw [h.1] at hne; simp [hn] at hne
-
+/-- the names the scan meets are non-empty -/
 theorem mem_refNames_ne_nil : ∀ (fuel : Nat) (t name : Bytes), name ∈ refNames fuel t → name ≠ [] := by
   intro fuel
   induction fuel with
@@ -168,100 +110,45 @@ theorem mem_refNames_ne_nil : ∀ (fuel : Nat) (t name : Bytes), name ∈ refNam
         · split at h
           · exact ih _ _ h
           · split at h
+            · simp at h
             · exact ih _ _ h
             · rename_i nm r hx
               simp only [List.mem_cons] at h
               rcases h with rfl | h
-              · exact rxExtract_name_ne_nil _ _ _ hx
+              · exact (rxExtractU_some _ _ _ hx).1
               · exact ih _ _ h
         · simp at h
       · exact ih _ _ h
 
-/-! ### templates without references -/
+/-- all groups unnamed, no `$0` in the template: every reference name is good -/
+theorem refGood_of_unnamed (m : RxMatch) (fuel : Nat) (t : Bytes) (hun : ∀ g ∈ m, g.1 = [])
+    (h0 : ∀ name ∈ refNames fuel t, rxNum name ≠ some 0) :
+    ∀ name ∈ refNames fuel t, refGood m name := by
+  intro name hn
+  unfold refGood
+  cases hk : rxNum name with
+  | some k => simp only; intro e; exact h0 name hn (by rw [hk, e])
+  | none =>
+    simp only
+    rw [List.find?_eq_none]
+    intro g hg hp
+    simp only [Bool.and_eq_true, beq_iff_eq] at hp
+    have := mem_refNames_ne_nil _ _ _ hn
+    rw [← hp.1, hun g hg] at this
+    exact this rfl
 
-theorem isRefByte_eq : isRefByte = isWordByte := rfl
+/-! ### templates without `$` -/
 
-/-- where the formatter's regex finds no reference, `regexp.Expand`'s `extract` finds none either
-    (since the repair both use the same name class `[a-zA-Z0-9_]`; the next byte may well be `$`) -/
-theorem refMatchAt_none (rest : Bytes) (h : refMatchAt rest = none) : rxExtract rest = none := by
-  unfold refMatchAt at h
-  rw [isRefByte_eq] at h
-  cases rest with
-  | nil => simp [rxExtract]
-  | cons b r =>
-    by_cases hb : (b == cLBrace) = true
-    · simp only [hb, if_true] at h
-      have hg : (r.takeWhile isWordByte).isEmpty = true := by
-        cases hgg : (r.takeWhile isWordByte).isEmpty with
-        | true => rfl
-        | false =>
-          rw [hgg] at h; simp only [Bool.false_eq_true, if_false] at h
-          split at h
-          · split at h <;> cases h
-          · cases h
-      have hg' : r.takeWhile isWordByte = [] := by simpa using hg
-      simp [rxExtract, hb, hg']
-    · have hb' : (b == cLBrace) = false := by simpa using hb
-      simp only [hb', Bool.false_eq_true, if_false] at h
-      have hg : ((b :: r).takeWhile isWordByte).isEmpty = true := by
-        cases hgg : ((b :: r).takeWhile isWordByte).isEmpty with
-        | true => rfl
-        | false =>
-          rw [hgg] at h; simp only [Bool.false_eq_true, if_false] at h
-          split at h
-          · split at h <;> cases h
-          · cases h
-      have hg' : (b :: r).takeWhile isWordByte = [] := by simpa using hg
-      simp [rxExtract, hb', hg']
+theorem beq_dollar_false_of_not_mem (b : UInt8) (rest : Bytes) (h : cDollar ∉ b :: rest) :
+    (b == cDollar) = false ∧ cDollar ∉ rest := by
+  simp only [List.mem_cons, not_or] at h
+  refine ⟨?_, h.2⟩
+  cases hbb : (b == cDollar) with
+  | false => rfl
+  | true => exfalso; apply h.1; simp at hbb; exact hbb.symm
 
-theorem hasDollarDollar_cons (a : UInt8) (t : Bytes) (h : hasDollarDollar (a :: t) = false) :
-    hasDollarDollar t = false := by
-  cases t with
-  | nil => rfl
-  | cons b r => simp only [hasDollarDollar, Bool.or_eq_false_iff] at h; exact h.2
-
-/-- Where the formatter's regex finds no reference the documented syntax copies the template —
-    provided it contains no `$$`: that is an escape for `$` in the documented syntax, while the
-    (repaired) formatter's regex finds no reference in it and copies both bytes. (Before the repair
-    `$$` was a reference named `$`, so `findRefs … = []` excluded it.) -/
-theorem findRefs_nil_expandSpec (caps : List Bytes) :
-    ∀ (fuel : Nat) (t : Bytes), findRefs fuel t = [] → hasDollarDollar t = false →
-      expandSpec caps fuel t = t := by
-  intro fuel
-  induction fuel with
-  | zero => intro t _ _; cases t <;> rfl
-  | succ fuel ih =>
-    intro t h hdd
-    cases t with
-    | nil => rfl
-    | cons b rest =>
-      have hdd' := hasDollarDollar_cons b rest hdd
-      by_cases hb : (b == cDollar) = true
-      · simp only [findRefs, hb, if_true] at h
-        cases hm : refMatchAt rest with
-        | some x => obtain ⟨a, g, r⟩ := x; rw [hm] at h; cases h
-        | none =>
-          rw [hm] at h
-          simp only at h
-          have hx := refMatchAt_none rest hm
-          have hbb : b = cDollar := by simpa using hb
-          cases rest with
-          | nil => simp [expandSpec, hbb]
-          | cons c rest' =>
-            have hc : (c == cDollar) = false := by
-              simp only [hasDollarDollar, hb, Bool.true_and, Bool.or_eq_false_iff] at hdd
-              exact hdd.1
-            simp [expandSpec, hc, hx, ih _ h hdd', hbb]
-      · have hb' : (b == cDollar) = false := by simpa using hb
-        simp only [findRefs, hb', Bool.false_eq_true, if_false] at h
-        simp [expandSpec, hb', ih rest h hdd']
-
-theorem compile_no_refs (tmpl : Bytes) (n : Nat) (caps : List Bytes) (h : findRefs tmpl.length tmpl = []) :
-    (compileTemplate tmpl n).format caps = some tmpl := by
-  simp [compileTemplate, h, Formatter.format]
-
-/-- a template without `$` has no references -/
-theorem findRefs_no_dollar : ∀ (fuel : Nat) (t : Bytes), cDollar ∉ t → findRefs fuel t = [] := by
+/-- a template without `$` is copied by `regexp.Expand` (whatever other bytes it contains) -/
+theorem rxExpand_no_dollar (m : RxMatch) : ∀ (fuel : Nat) (t : Bytes), cDollar ∉ t → rxExpand m fuel t = some t := by
   intro fuel
   induction fuel with
   | zero => intro t _; cases t <;> rfl
@@ -270,29 +157,34 @@ theorem findRefs_no_dollar : ∀ (fuel : Nat) (t : Bytes), cDollar ∉ t → fin
     cases t with
     | nil => rfl
     | cons b rest =>
-      simp only [List.mem_cons, not_or] at h
-      have hb : (b == cDollar) = false := by
-        cases hbb : (b == cDollar) with
-        | false => rfl
-        | true => exfalso; apply h.1; simp at hbb; exact hbb.symm
-      simp [findRefs, hb, ih rest h.2]
+      obtain ⟨hb, h2⟩ := beq_dollar_false_of_not_mem b rest h
+      simp [rxExpand, hb, ih rest h2]
 
-/-- a template without `$` has no `$$` -/
-theorem hasDollarDollar_no_dollar : ∀ (t : Bytes), cDollar ∉ t → hasDollarDollar t = false := by
-  intro t
-  induction t with
-  | nil => intro _; rfl
-  | cons a t ih =>
-    intro h
-    simp only [List.mem_cons, not_or] at h
+/-- … and by the documented syntax -/
+theorem expandSpec_no_dollar (caps : List Bytes) :
+    ∀ (fuel : Nat) (t : Bytes), cDollar ∉ t → expandSpec caps fuel t = some t := by
+  intro fuel
+  induction fuel with
+  | zero => intro t _; cases t <;> rfl
+  | succ fuel ih =>
+    intro t h
     cases t with
     | nil => rfl
-    | cons b r =>
-      have hb : (a == cDollar) = false := by
-        cases hbb : (a == cDollar) with
-        | false => rfl
-        | true => exfalso; apply h.1; simp at hbb; exact hbb.symm
-      simp only [hasDollarDollar, hb, Bool.false_and, Bool.false_or]
-      exact ih h.2
+    | cons b rest =>
+      obtain ⟨hb, h2⟩ := beq_dollar_false_of_not_mem b rest h
+      simp [expandSpec, hb, ih rest h2]
+
+/-- … and mentions no reference -/
+theorem refNames_no_dollar : ∀ (fuel : Nat) (t : Bytes), cDollar ∉ t → refNames fuel t = [] := by
+  intro fuel
+  induction fuel with
+  | zero => intro t _; cases t <;> rfl
+  | succ fuel ih =>
+    intro t h
+    cases t with
+    | nil => rfl
+    | cons b rest =>
+      obtain ⟨hb, h2⟩ := beq_dollar_false_of_not_mem b rest h
+      simp [refNames, hb, ih rest h2]
 
 end SE
